@@ -11,6 +11,8 @@ var Checks = map[string]Check{
 	"C03": {Fn: CheckC03},
 	"C04": {Fn: CheckC04},
 	"C05": {Fn: CheckC05},
+	"C07": {Fn: CheckC07},
+	"C08": {Fn: CheckC08},
 	"C09": {Fn: CheckC09},
 	"C10": {Fn: CheckC10},
 	"C11": {Fn: CheckC11},
